@@ -37,6 +37,25 @@ def gen_cases(tier, seed):
                 cases.append(common.mk(content, tag='boost', **kw))
                 if rng.random() < 0.35:
                     cases.append(common.mk(content, tag='noboost', boost_error=False, **kw))
+    # ECI: the 12 bit header belongs to the content the boosted level has to hold
+    for (v, lv, mode, n) in gen.boundaries(('byte',)):
+        if isinstance(v, str) or (tier == 'quick' and v > 6):
+            continue
+        for d in (0, -1, 1, -2):
+            k = n - 2 + d      # 12 header bits = 1.5 bytes: the boundary with the header lies 1-2 bytes below n
+            if k < 1:
+                continue
+            kw = {'eci': True, 'encoding': 'utf-8'}
+            if rng.random() < 0.5:
+                kw['version'] = v
+            cases.append(common.mk('a' * k, tag='boost-eci', **kw))
+    for (v, lv, mode, n) in gen.boundaries(('numeric', 'alphanumeric', 'byte', 'kanji')):
+        if isinstance(v, str) and lv:
+            for cnt in (n, n - 1, n + 1):
+                for req in ('L', 'M', 'Q'):
+                    if cnt > 0:
+                        cases.append(common.mk(gen.content_for_bits(mode, cnt), tag='boost-micro', error=req,
+                                               **({'version': v} if rng.random() < 0.5 else {'micro': True})))
     n_seq = 120 if tier == 'quick' else 1500
     for _ in range(n_seq):
         mode = rng.choice(['numeric', 'alphanumeric', 'byte'])
